@@ -187,6 +187,48 @@ def hammer_records(jp, rng, n_threads, iterations):
     return recs
 
 
+def fresh_env_records(jp, rng, n_threads, rounds):
+    """A brand-new environment whose very first uses (compile + evaluate, with function calls) come from several
+    threads at the same moment: whatever an environment sets up lazily is set up under contention."""
+    docs = [[{"s": "abc", "a": [1, 2]}, {"s": "xbc", "a": [1]}, {"s": "a"}]]
+    qs = ["$[?match(@.s, 'a.*') || count(@.a[*]) > 1]", "$[?search(@.s, 'bc') && length(@.a) >= 1]", "$[?value(@.a[0]) == 1 && !match(@.s, 'x.*')]"]
+    out = []
+    old = sys.getswitchinterval()
+    sys.setswitchinterval(1e-6)
+    try:
+        for r in range(rounds):
+            env = jp.JSONPathEnvironment()
+            res = [None] * n_threads
+            barrier = threading.Barrier(n_threads)
+
+            def work(t, env=env, res=res, barrier=barrier, r=r):
+                barrier.wait()
+                q = qs[(t + r) % len(qs)]
+                try:
+                    res[t] = (q, "ok", [core.enc_loc(n.location) for n in env.find(q, docs[0])], "")
+                except Exception as err:  # noqa: BLE001
+                    res[t] = (q, "raise", [], type(err).__name__)
+
+            ths = [threading.Thread(target=work, args=(t,)) for t in range(n_threads)]
+            for th in ths:
+                th.start()
+            for th in ths:
+                th.join()
+            out += [x for x in res if x is not None]
+    finally:
+        sys.setswitchinterval(old)
+    edoc = core.enc_value(docs[0])
+    recs, seen = [], set()
+    for q, o, locs, cls in out:
+        key = (q, o, json.dumps(locs), cls)
+        if key in seen:
+            continue
+        seen.add(key)
+        recs.append({"op": "find", "q": core.enc_text(q), "doc": edoc, "out": o, "stage": "find", "jp": o == "ok", "cls": cls, "locs": locs,
+                     "threads": n_threads})
+    return recs
+
+
 def compile_stress(jp, rng, n_threads, seconds, n_queries=320):
     """Several threads compile and evaluate MANY distinct queries on one shared environment
     (so that any bounded cache inside the environment keeps evicting).  Returns (records, errors)."""
@@ -333,6 +375,7 @@ def run(chk: core.Check, tier: str, seed: int) -> None:
     recs += handover_records(jp, rng, 30 if tier == "quick" else 600)
     for nt in ((4, 8) if tier == "quick" else (2, 4, 8, 16)):
         recs += hammer_records(jp, rng, nt, 60 if tier == "quick" else 600)
+        recs += fresh_env_records(jp, rng, nt, 150 if tier == "quick" else 3000)
     for nt in ((4, 8) if tier == "quick" else (2, 4, 8, 16)):
         srecs, errors = compile_stress(jp, rng, nt, 4.0 if tier == "quick" else 40.0)
         recs += srecs
